@@ -252,6 +252,43 @@ def check_exposure_test(ctx):
            'path below a directory that still exists (a removed scratch '
            'file, a file yet to be written) is not recognised, and is '
            'written to the log / config with its directories')
+    # "not exposed" without looking further up is answered only where the
+    # walk ends: at the empty path '.' and at the root '/'.  Any other
+    # early `return False` (a length limit, a pattern, a suffix) cuts the
+    # walk for some words and leaves their existing ancestors undetected
+    cfg = cfg_of(fi)
+    rd = rd_of(fi)
+    from ..core.guards import facts_at
+    k = 0
+    for r in cfg.nodes:
+        if r.kind != 'return' or r.id not in rd.live \
+                or r.ast.value is None:
+            continue
+        v = r.ast.value
+        if not (isinstance(v, ast.Constant) and v.value is False):
+            continue
+        k += 1
+        facts = facts_at(cfg, rd, r.id)
+        ends = False
+        for (_g, test, truth) in facts:
+            if truth and isinstance(test, ast.Compare) and len(
+                    test.ops) == 1 and isinstance(test.ops[0], ast.Eq):
+                sides = [test.left, test.comparators[0]]
+                for sd in sides:
+                    if isinstance(sd, ast.Call) and getattr(
+                            sd.func, 'attr', getattr(sd.func, 'id', None)) \
+                            == 'Path' and len(sd.args) == 1 and isinstance(
+                                sd.args[0], ast.Constant) \
+                            and sd.args[0].value in ('.', '/', ''):
+                        ends = True
+        ctx.ob(rule, f'is_exposed:return-false#{k - 1}', fi.loc(r.ast),
+               ends, 'answered only where the walk over the ancestors ends'
+               if ends else
+               f'`return False` under '
+               f'{[unparse(t)[:40] for (_g, t, tr) in facts if tr] or "no test"} '
+               'ends the walk before every ancestor was tested: words '
+               'that satisfy the test keep their existing directories in '
+               'the output')
     # existence tests: both files and directories count
     kinds = {c.func.attr for c in ast.walk(fi.node)
              if isinstance(c, ast.Call) and isinstance(
